@@ -14,13 +14,14 @@ from .rel import Pair
 from . import c03, c08, c09, c10, c11, c12, c13, c14
 
 DATA_CARRIERS = ["list_none", "tuple_nan", "float32", "masked", "series", "series_idx", "dask", "int64", "uint16", "int8",
-                 "readonly", "bigendian", "strided", "object_none"]
+                 "readonly", "bigendian", "strided", "object_none", "masked_int16"]
 # the last four are the same float64 content behind another memory layout / flag / element type: in the model they are the
 # reference ndarray (byte order, strides and the element type of an object array that holds floats and None are not observable
 # there - a model contract), on the real stack every path witness and every probe goes through the real exotic array
 LAYOUT_CARRIERS = ("readonly", "bigendian", "strided", "object_none")
 INT_CARRIERS = {"int64": None, "uint16": (0, 2000), "int8": (-100, 100)}     # value range assumed for the narrow ones
-TIME_CARRIERS = ["us", "s", "ms", "pydt", "ts", "dti", "dti_utc", "ser", "ser_utc", "epoch_int", "epoch_float", "epoch_list"]
+TIME_CARRIERS = ["us", "s", "ms", "pydt", "ts", "dti", "dti_utc", "ser", "ser_utc", "epoch_int", "epoch_float", "epoch_list",
+                 "epoch_int32", "epoch_uint32"]      # the usual on-disk types of epoch-second time variables (whole seconds before 2038)
 
 
 class SymDask:
@@ -67,7 +68,8 @@ class CarrierKit:
                 return snp.ndarray.from_list(vals, "float32", owner="caller")
             if c in INT_CARRIERS:
                 return snp.ndarray.from_list([SInt(z3.ToInt(v.v)) for v in vals], c, owner="caller")
-            if c == "masked":
+            if c in ("masked", "masked_int16"):
+                # (masked_int16: whole numbers in an int16 masked array - in the model the same masked float array, a contract)
                 data = [SFloat(FALSE, mk_if(v.nan, z3.RealVal(7), v.v)) for v in vals]
                 return K.marray(data, [SBool(v.nan) for v in vals])
             if c == "series":
@@ -92,6 +94,8 @@ class CarrierKit:
                 return np.array(vals, dtype=c)
             if c == "masked":
                 return np.ma.MaskedArray(np.array([7.0 if v != v else v for v in vals], dtype=float), mask=[v != v for v in vals])
+            if c == "masked_int16":
+                return np.ma.MaskedArray(np.array([7 if v != v else int(v) for v in vals], dtype="int16"), mask=[v != v for v in vals])
             if c == "series":
                 return pd.Series(np.array(vals, dtype=float))
             if c == "series_idx":
@@ -108,6 +112,10 @@ class CarrierKit:
             return K.tarray(vals, unit)
         if c in ("us", "s", "ms", "m", "h"):
             return K.tarray(vals, c)
+        if c in ("epoch_int32", "epoch_uint32"):
+            e = K.epoch_array(vals)
+            dt = c[len("epoch_"):]
+            return snp.ndarray.from_list(list(e.a), dt, owner="caller") if K.sym else e.astype(dt)
         if c in ("epoch_int", "epoch_float", "epoch_list"):
             e = K.epoch_array(vals)
             if c == "epoch_float":
@@ -199,6 +207,11 @@ class Carrier(Pair):
                         V.assume(mk_not(v.nan), z3.IsInt(v.v))
                         if rng is not None:
                             V.assume(v.v >= rng[0], v.v <= rng[1])
+        if self.data == "masked_int16":
+            for name in DATA_FIELDS:
+                for v in getattr(S, name, []) or []:
+                    if isinstance(v, SFloat):
+                        V.assume(mk_or(v.nan, mk_and(z3.IsInt(v.v), v.v >= -1000, v.v <= 1000)))
         if self.integer:
             # whole numbers only: without a dtype valid_range_test guesses "epoch seconds" for a plain list, and the time
             # model is whole-second
@@ -206,6 +219,9 @@ class Carrier(Pair):
                 for v in getattr(S, name, []) or []:
                     if isinstance(v, SFloat):
                         V.assume(mk_or(v.nan, z3.IsInt(v.v)))
+        if self.time in ("epoch_int32", "epoch_uint32"):
+            for t in getattr(S, "t", []) or []:
+                V.assume(t.s >= 0, t.s < 2 ** 31)
         if self.time in ("m", "h"):
             # a datetime64[m] / [h] array holds whole minutes / hours
             k = {"m": 60, "h": 3600}[self.time]
@@ -255,9 +271,9 @@ def jobs(tier):
     ]
     for base, missing_ok in data_bases:
         for c in DATA_CARRIERS:
-            if not missing_ok and c == "masked":
+            if not missing_ok and c in ("masked", "masked_int16"):
                 continue
-            if isinstance(base, c03.ValidRange) and (c in INT_CARRIERS or c == "object_none"):
+            if isinstance(base, c03.ValidRange) and (c in INT_CARRIERS or c in ("object_none", "masked_int16")):
                 # valid_range_test compares in the data's own dtype: integer data needs an integer span (documented), and an
                 # object array has no numeric dtype to compare in (it raises TypeError on the unchanged tree; callers pass dtype=)
                 continue
